@@ -42,6 +42,9 @@ func replayAbs(size int, ms []tak.Move) ([]*aboard, bool) {
 	return out, true
 }
 
+// c15Prime: the call made immediately before the judged call (history family), "<size> <moves>"; part of the failing input
+var c15Prime string
+
 func emitC15(c *ctx, size int, ms []tak.Move, kind string, check bool) {
 	res, cs := canonicalOf(size, ms)
 	c.printf("CASE %d %s | %s\n", size, encMoves(ms), res)
@@ -52,7 +55,11 @@ func emitC15(c *ctx, size int, ms []tak.Move, kind string, check bool) {
 		return
 	}
 	fail := func(cls, did, want string) {
-		c.printf("ORACLE-FAIL %s | %d %s | %s | %s\n", cls, size, encMoves(ms), did, want)
+		in := fmt.Sprintf("%d %s", size, encMoves(ms))
+		if c15Prime != "" {
+			in += " after " + c15Prime
+		}
+		c.printf("ORACLE-FAIL %s | %s | %s | %s\n", cls, in, did, want)
 	}
 	orig, legal := replayAbs(size, ms)
 	if !legal {
@@ -129,6 +136,11 @@ func runC15(c *ctx) {
 		f := strings.Fields(readReplay(c).Input)
 		if len(f) >= 2 {
 			size, _ := strconv.Atoi(f[0])
+			if len(f) >= 5 && f[2] == "after" { // the priming call of the history family
+				ps, _ := strconv.Atoi(f[3])
+				canonicalOf(ps, decodeMoves(f[4]))
+				c15Prime = f[3] + " " + f[4]
+			}
 			emitC15(c, size, decodeMoves(f[1]), "replay", true)
 		}
 		return
@@ -282,6 +294,72 @@ func runC15(c *ctx) {
 				img[k] = symMove(i, size, m)
 			}
 			emitC15(c, size, img, "orbit", true)
+		}
+	}
+	// CALL HISTORIES: Canonical is a function of (size, moves) alone, whatever was canonicalised before in the same process.
+	// A priming call on a RELATED input (the same line or a prefix of it on another board size, the same line or one of its
+	// images on the same size, the canonical form itself) is made immediately before the judged call, whose first action is the
+	// call under test; the model, which has no state, has to agree too.
+	for g := 0; g < 40*c.scale; g++ {
+		n := 3 + r.Intn(3)
+		_, ms := randomGame(r, tak.Config{Size: n}, 3+r.Intn(12), []int{-1, 1, 5}[r.Intn(3)], false)
+		if len(ms) < 3 {
+			continue
+		}
+		for _, n2 := range []int{n, n + 1, n + 2 + r.Intn(2)} {
+			if n2 > 8 {
+				n2 = 8
+			}
+			// the line as played on size n2 (legal there as well: larger board, more pieces), extended by a few legal moves
+			p := tak.New(tak.Config{Size: n2})
+			var line []tak.Move
+			for _, m := range ms {
+				q, err := p.Move(m)
+				if err != nil {
+					break
+				}
+				p = q
+				line = append(line, m)
+			}
+			for t := r.Intn(3); t > 0; t-- {
+				if over, _ := p.GameOver(); over {
+					break
+				}
+				legal := legalMoves(p)
+				if len(legal) == 0 {
+					break
+				}
+				m := legal[r.Intn(len(legal))]
+				q, _ := p.Move(m)
+				p = q
+				line = append(line, m)
+			}
+			if len(line) < len(ms) {
+				continue
+			}
+			var prime []tak.Move
+			psize := n
+			switch r.Intn(5) {
+			case 0: // the same line on the size it was generated for
+				prime = ms
+			case 1: // a prefix of it
+				prime = ms[:1+r.Intn(len(ms))]
+			case 2: // the judged line itself, on yet another size
+				prime, psize = line, 3+r.Intn(6)
+			case 3: // an image of the line on the judged size
+				i := 1 + r.Intn(7)
+				prime, psize = make([]tak.Move, len(line)), n2
+				for k, m := range line {
+					prime[k] = symMove(i, n2, m)
+				}
+			case 4: // its canonical form
+				_, cs := canonicalOf(n2, line)
+				prime, psize = cs, n2
+			}
+			canonicalOf(psize, prime)
+			c15Prime = fmt.Sprintf("%d %s", psize, encMoves(prime))
+			emitC15(c, n2, line, "after-related-call", true)
+			c15Prime = ""
 		}
 	}
 	// directed search: positions that look symmetric from above (tops and heights) under some symmetry while the
